@@ -98,8 +98,21 @@ fn state_for_name(name: &str, position: &str) -> Option<SchemaSet> {
     }
 }
 
+/// valid XSD spellings of integer facet values: (label, text, the number it denotes)
+fn numeric_spellings() -> Vec<(&'static str, &'static str, i64)> {
+    vec![("plus-sign", "+5", 5), ("leading-zeros", "005", 5), ("surrounding-blanks", " 5 ", 5), ("plain", "5", 5), ("plus-and-blanks", " +5", 5)]
+}
+
 fn state_for_payload(payload: &str, sink: &str) -> Option<SchemaSet> {
     match sink {
+        "facet-numeric-spelling" => {
+            let mut s = s1();
+            s.files[0].comps.push(simple("Picky", "string", vec![("maxLength", payload)]));
+            s.files[0].comps.push(simple("PickyMin", "string", vec![("minLength", payload)]));
+            s.files[0].comps.push(simple("PickyInt", "int", vec![("maxInclusive", payload)]));
+            s.files[0].comps.push(simple("PickyExc", "int", vec![("minExclusive", payload)]));
+            Some(s)
+        }
         "enumeration-value" => {
             let mut s = s1();
             s.files[0].comps.push(simple("Picky", "string", vec![("enumeration", "plain"), ("enumeration", payload)]));
@@ -168,6 +181,11 @@ fn cases(tier: &str) -> Vec<Case14> {
             if let Some(set) = state_for_payload(&p, sink) {
                 out.push(Case14 { state: State { label: format!("payload {pl} in {sink}"), depth: 1, set }, kind: "payload", what: pl.to_string(), where_: sink.to_string(), payload: Some(p.clone()) });
             }
+        }
+    }
+    for (l, text, _) in numeric_spellings() {
+        if let Some(set) = state_for_payload(text, "facet-numeric-spelling") {
+            out.push(Case14 { state: State { label: format!("numeric facet spelled {l} ({text:?})"), depth: 1, set }, kind: "payload", what: l.to_string(), where_: "facet-numeric-spelling".to_string(), payload: Some(text.to_string()) });
         }
     }
     let _ = tier;
@@ -246,6 +264,14 @@ pub fn check(tier: &str) -> i32 {
                             ));
                         }
                     }
+                    if c.where_ == "facet-numeric-spelling" {
+                        let path = |n: &str| find_struct(ex, NS_A, n).first().map(|st| format!("zg::{}", st.path().join("::")));
+                        if let (Some(a), Some(b), Some(ci), Some(e)) = (path("Picky"), path("PickyMin"), path("PickyInt"), path("PickyExc")) {
+                            driver = Some(format!(
+                                "use zg::restrictions::CheckRestrictions;\npub fn run(out: &mut zvp::Out) {{\n    let ok = |r: bool| if r {{ \"Ok\" }} else {{ \"Err\" }};\n    let v = |s: &str| s.to_string();\n    out.emit(\"verdicts\", &[ok({a} {{ value: v(\"abcde\") }}.check_restrictions(None).is_ok()), ok({a} {{ value: v(\"abcdef\") }}.check_restrictions(None).is_ok()), ok({b} {{ value: v(\"abcde\") }}.check_restrictions(None).is_ok()), ok({b} {{ value: v(\"abcd\") }}.check_restrictions(None).is_ok()), ok({ci} {{ value: v(\"5\") }}.check_restrictions(None).is_ok()), ok({ci} {{ value: v(\"6\") }}.check_restrictions(None).is_ok()), ok({e} {{ value: v(\"6\") }}.check_restrictions(None).is_ok()), ok({e} {{ value: v(\"5\") }}.check_restrictions(None).is_ok())].join(\",\"));\n}}\n"
+                            ));
+                        }
+                    }
                     batch.push(BatchCase { id: format!("s{k}"), emitted: text.clone(), driver });
                     batch_idx.push(k);
                 }
@@ -277,7 +303,11 @@ pub fn check(tier: &str) -> i32 {
                 compiled_ok += 1;
                 if let Some(lines) = res.lines.get(&b.id) {
                     let get = |k: &str| lines.iter().find(|l| l["k"] == k).and_then(|l| l["v"].as_str()).unwrap_or("");
-                    if b.driver.is_some() && (get("member") != "Ok" || get("other") != "Err") {
+                    if c.where_ == "facet-numeric-spelling" {
+                        if get("verdicts") != "Ok,Err,Ok,Err,Ok,Err,Ok,Err" {
+                            agg.add(mk("data.literal").ctx("aspect", "numeric-facet-value").exp("the facet is enforced with the number the schema text denotes (5): Ok,Err,Ok,Err,Ok,Err,Ok,Err").act(get("verdicts")));
+                        }
+                    } else if b.driver.is_some() && (get("member") != "Ok" || get("other") != "Err") {
                         agg.add(mk("data.literal").ctx("aspect", "run-time").exp("the original text is a member of the enumeration at run time, another text is not").act(format!("member={} other={}", get("member"), get("other"))));
                     }
                 }
@@ -293,7 +323,7 @@ pub fn check(tier: &str) -> i32 {
     rep.set("compiled", json!(batch.len()));
     rep.set("compiled_without_error", json!(compiled_ok));
     rep.set("exhaustive", json!(true));
-    rep.set("bound", json!(format!("complete product: {} keywords (strict, reserved, weak; edition 2024) x 8 naming positions (element, attribute, complex type, simple type, global element, operation, message part, service); {} unusual NCNames x the same positions; {} payload strings (quote, backslash, newline, carriage return, braces, comment delimiters, three injection payloads carrying a marker function, non-ASCII, raw-string opener) x 6 sinks (enumeration value, facet value, documentation, namespace URI, port address, soapAction)", all_keywords().len(), odd_names().len(), payloads().len())));
+    rep.set("bound", json!(format!("complete product: {} keywords (strict, reserved, weak; edition 2024) x 8 naming positions (element, attribute, complex type, simple type, global element, operation, message part, service); {} unusual NCNames x the same positions; {} payload strings (quote, backslash, newline, carriage return, braces, comment delimiters, three injection payloads carrying a marker function, non-ASCII, raw-string opener) x 6 sinks (enumeration value, facet value, documentation, namespace URI, port address, soapAction); 5 valid XSD spellings of a numeric facet value (+5, 005, blanks) whose enforcement is checked at run time", all_keywords().len(), odd_names().len(), payloads().len())));
     rep.assume("an input that the generator rejects produces no output, so nothing can be injected; rejection is a violation only for keyword / NCName names (in-subset), not for payload strings (e.g. a non-numeric facet value is not a valid schema)");
     rep.assume("payloads in XML names are limited to what an NCName allows");
     rep.finish()
